@@ -75,6 +75,7 @@ type Output struct {
 	SolverS        float64           `json:"solver_s"`
 	WallS          float64           `json:"wall_s"`
 	Violations     []Violation       `json:"violations"`
+	ViolClasses    map[string]int    `json:"violation_classes"`
 	Covers         map[string]int    `json:"covers"`
 	Unwind         map[string]int    `json:"unwind_failures"`
 	EngineErrors   []string          `json:"engine_errors"`
@@ -319,7 +320,7 @@ func main() {
 	o := Output{Harness: *harness, Case: caseIndex, Scale: *scale, Paths: stats.pathsDone, PathsDead: stats.pathsDead, States: stats.statesCreated,
 		Forks: stats.forks, Steps: stats.steps, Calls: stats.calls, Obligations: stats.obligations, DischargedC: stats.dischargedConst,
 		DischargedS: stats.dischargedSolver, Undischarged: stats.undischarged, Queries: theSolver.Queries, FeasQueries: stats.feasQueries,
-		CacheHits: theSolver.CacheHit, CoreHits: theSolver.CoreHit, SolverS: theSolver.Time.Seconds(), WallS: time.Since(t0).Seconds(), Violations: violations, Covers: covers,
+		CacheHits: theSolver.CacheHit, CoreHits: theSolver.CoreHit, SolverS: theSolver.Time.Seconds(), WallS: time.Since(t0).Seconds(), Violations: violations, ViolClasses: violClassCount, Covers: covers,
 		Unwind: unwindFailures, EngineErrors: engineErrors, Functions: stats.fnsEncoded, Stubs: stats.stubs, Asserts: stats.asserts,
 		FPAbstract: stats.fpAbstract, Budget: budget, SamplePaths: samples, Solver: *solver, Cross: crossStats, Exprs: exprCount}
 	if o.Violations == nil {
